@@ -143,7 +143,8 @@ def join_env(a: Optional[dict], b: Optional[dict]) -> Optional[dict]:
         if k in a and k in b:
             out[k] = join(a[k], b[k])
         else:
-            out[k] = TOP      # possibly undefined
+            # defined on one side only: any execution that reads it later came through that side
+            out[k] = a[k] if k in a else b[k]
     return out
 
 
@@ -167,10 +168,16 @@ class CallRecord:
 class Evaluator:
     def __init__(self, repo: Repo):
         self.repo = repo
-        self.calls: List[CallRecord] = []
+        self._calls: Dict[int, CallRecord] = {}
         self.returns: List[object] = []
+        self.return_envs: List[dict] = []
         self.func: Optional[Func] = None
         self._module_env_cache: Dict[str, dict] = {}
+
+    @property
+    def calls(self) -> List[CallRecord]:
+        """one record per call expression (the last evaluation wins: in loops that is the joined env)"""
+        return list(self._calls.values())
 
     # ------------------------------------------------------------------ module-level names
     def module_env(self, mod: Module) -> dict:
@@ -503,7 +510,7 @@ class Evaluator:
         # evaluate arguments (records nested calls)
         argvals = [self.eval(a.value if isinstance(a, ast.Starred) else a, env) for a in e.args]
         kwvals = {k.arg: self.eval(k.value, env) for k in e.keywords}
-        self.calls.append(CallRecord(e, dict(env), self.func, callee))
+        self._calls[id(e)] = CallRecord(e, dict(env), self.func, callee)
         fname = norm(e.func)
         # ---- builtins / idioms
         if fname == "locals" and not e.args:
@@ -611,7 +618,10 @@ class Evaluator:
         if env:
             e.update(env)
         out = self.exec_block(func.node.body, e)
-        return out if out is not None else e
+        final = out
+        for renv in self.return_envs:
+            final = join_env(final, renv)
+        return final if final is not None else e
 
     def exec_block(self, stmts: List[ast.stmt], env: Optional[dict]) -> Optional[dict]:
         for st in stmts:
@@ -650,6 +660,7 @@ class Evaluator:
             return env
         if isinstance(st, ast.Return):
             self.returns.append(self.eval(st.value, env) if st.value is not None else cs(None))
+            self.return_envs.append(dict(env))
             return None
         if isinstance(st, ast.Raise):
             if st.exc is not None:
@@ -793,7 +804,7 @@ def bind_call(ev: Evaluator, rec: CallRecord, callee: Func, skip_self: Optional[
     b = Binding({}, {})
     saved_func = ev.func
     ev.func = rec.func
-    saved_calls = len(ev.calls)
+    saved_calls = dict(ev._calls)
     try:
         # method call through an instance: drop self
         if skip_self is None:
@@ -846,5 +857,5 @@ def bind_call(ev: Evaluator, rec: CallRecord, callee: Func, skip_self: Optional[
                     b.complete = False
     finally:
         ev.func = saved_func
-        del ev.calls[saved_calls:]
+        ev._calls = saved_calls
     return b
